@@ -8,7 +8,7 @@ from ..cfg import build_cfg, calls_in, node_calls
 from ..core import Ctx, property_info, rule
 from ..events import event_of_yield, node_events
 from ..model import AnalysisError, FuncInfo, walk_no_nested
-from ..q import A, Dispatch, asrc, call_name_of, enum_members, flow_conditions, flows, forms, is_self_attr, kwarg, return_values, stores, str_template, template_text, unparse
+from ..q import A, Dispatch, asrc, call_name_of, calls_named, func_text, leaves_at, raw_forms, enum_members, flow_conditions, flows, forms, is_self_attr, kwarg, return_values, stores, str_template, template_text, unparse
 
 PAR = "xsdata.formats.dataclass.parsers"
 SER = "xsdata.formats.dataclass.serializers.mixins"
@@ -48,7 +48,7 @@ def field_coverage(ctx: Ctx) -> None:
     for q in (f"{PAR}.nodes.element:ElementNode.bind", f"{PAR}.nodes.standard:StandardNode.bind"):
         fi = ctx.repo.func(q)
         for c in calls_in(fi.node):
-            if unparse(c.func) == "self.derived_factory":
+            if func_text(fi, c) == "self.derived_factory":
                 sites.append((fi, c))
     ctx.floor("derived factory call sites", len(sites), 2)
     for fi, c in sites:
@@ -56,7 +56,7 @@ def field_coverage(ctx: Ctx) -> None:
         ctx.ob(f"{fi.qual.split(':')[1]}: derived_factory(qname=..., value=..., ...) passes DerivedElement fields only", kws.get("qname") == "qname" and "value" in kws and set(kws) <= set(der_f), at=fi, node=c,
                construct="derived factory keywords", msg=f"keywords {kws}")
     eb = ctx.repo.func(f"{PAR}.nodes.element:ElementNode.bind")
-    ok = any(unparse(c.func) == "self.derived_factory" and unparse(kwarg(c, "type") or ast.Constant(0)) == "self.xsi_type" for c in calls_in(eb.node))
+    ok = any("self.xsi_type" in raw_forms(eb, c, kwarg(c, "type")) for c in calls_named(eb, "self.derived_factory"))
     ctx.ob("ElementNode.bind records the xsi:type in the derived element", ok, at=eb, construct="derived type kept", msg="xsi:type of a substituted element is lost")
     cde = ctx.repo.func(f"{SER}:EventGenerator.convert_derived_element")
     reads = {n.attr for n in walk_no_nested(cde.node) if isinstance(n, ast.Attribute) and isinstance(n.value, ast.Name) and n.value.id == "value"}
@@ -119,6 +119,13 @@ def sibling_attribute_treatment(ctx: Ctx) -> None:
     rv = return_values(pa.node)
     ok = bool(rv) and all(isinstance(v, ast.DictComp) and len(v.generators) == 1 and not v.generators[0].ifs and isinstance(v.generators[0].target, ast.Tuple)
                           and unparse(v.key) == unparse(v.generators[0].target.elts[0]) for v in rv)
+    if not ok:
+        # loop form: for key, value in attrs.items(): result[key] = parse_any_attribute(value, ...) - no condition anywhere, key stored unchanged
+        gpa = build_cfg(pa.node)
+        loops = [n for n in walk_no_nested(pa.node) if isinstance(n, ast.For) and isinstance(n.target, ast.Tuple) and len(n.target.elts) == 2 and ".items()" in unparse(n.iter)]
+        sts = [(tgt, v) for _, tgt, v in stores(pa.node) if isinstance(tgt, ast.Subscript)]
+        ok = len(loops) == 1 and len(sts) == 1 and unparse(sts[0][0].slice) == unparse(loops[0].target.elts[0]) and not [t for t in gpa.nodes if t.kind == "test"] \
+            and not any(isinstance(x, ast.comprehension) and x.ifs for x in walk_no_nested(pa.node)) and isinstance(sts[0][1], ast.Call) and call_name_of(sts[0][1]) == "parse_any_attribute"
     ctx.ob("parse_any_attributes keeps every key (no filter, key unchanged) and converts every value", ok, at=pa, construct="all attributes kept", msg="attributes dropped or keys rewritten")
 
 
@@ -129,39 +136,54 @@ def wildcard_namespace_tokens(ctx: Ctx) -> None:
     members = set(enum_members(nt.node))
     rn = ctx.repo.func("xsdata.formats.dataclass.models.builders:XmlVarBuilder.resolve_namespaces")
     mn = ctx.repo.func("xsdata.formats.dataclass.models.elements:XmlVar._match_namespace")
-    used_b = {n.attr for n in walk_no_nested(rn.node) if isinstance(n, ast.Attribute) and unparse(n.value) == "NamespaceType"}
-    used_m = {n.attr for n in walk_no_nested(mn.node) if isinstance(n, ast.Attribute) and unparse(n.value) == "NamespaceType"}
+    from ..q import family
+
+    rn_family = family(ctx.repo, rn)
+    used_b = {n.attr for f in rn_family for n in walk_no_nested(f.node) if isinstance(n, ast.Attribute) and unparse(n.value) == "NamespaceType"}
+    used_m = {n.attr for f in family(ctx.repo, mn) for n in walk_no_nested(f.node) if isinstance(n, ast.Attribute) and unparse(n.value) == "NamespaceType"}
     for m in sorted(members):
         ctx.ob(f"NamespaceType.{m} is interpreted", m in used_b or m in used_m, at=rn, construct=f"token {m}", msg="wildcard namespace token treated as a literal namespace")
-    loops = [n for n in walk_no_nested(rn.node) if isinstance(n, ast.For) and isinstance(n.target, ast.Name) and "split" in unparse(n.iter)]
+    # the function (resolve_namespaces itself or a helper it delegates each entry to) that dispatches on the token
     table: dict[str | None, set[str]] = {}
-    if loops:
-        tok = loops[0].target.id
-        d = Dispatch(rn.node, is_subject=lambda e: isinstance(e, ast.Name) and e.id == tok)
-        for key in [*sorted(d.keys), None]:
-            added: set[str] = set()
-            for n in d.specific(key):
-                for c in node_calls(n) if n.kind != "test" else []:
-                    if isinstance(c.func, ast.Attribute) and c.func.attr == "add" and len(c.args) == 1:
-                        for leaf, _ in flows(rn, n, c.args[0]):
+    tokvar = None
+    for f in rn_family:
+        cands = [a.arg for a in f.pos_params if a.arg not in ("self", "cls")] + [n.target.id for n in walk_no_nested(f.node) if isinstance(n, ast.For) and isinstance(n.target, ast.Name)]
+        for tok in cands:
+            d = Dispatch(f.node, is_subject=lambda e, tok=tok: isinstance(e, ast.Name) and e.id == tok)
+            if not any(k.startswith("NamespaceType.") for k in d.keys):
+                continue
+            tokvar = tok
+            for key in [*sorted(d.keys), None]:
+                produced: set[str] = set()
+                for n in d.specific(key):
+                    if n.kind == "test" or n.ast is None:
+                        continue
+                    exprs = [c.args[0] for c in node_calls(n) if isinstance(c.func, ast.Attribute) and c.func.attr == "add" and len(c.args) == 1]
+                    if isinstance(n.ast, ast.Return) and n.ast.value is not None:
+                        exprs.append(n.ast.value)
+                    for e in exprs:
+                        for leaf, _ in flows(f, n, e):
                             t = str_template(leaf)
                             if t is not None and any(k == "hole" for k, _ in t):
                                 holes = [v for k, v in t if k == "hole"]
-                                alts = sorted(unparse(x) for h in holes for x, _ in flows(rn, n, h))
-                                added.add(template_text(t) + " with " + ",".join(alts))
+                                alts = sorted(unparse(x) for h in holes for x, _ in flows(f, n, h))
+                                produced.add(template_text(t) + " with " + ",".join(alts))
                             else:
-                                added.add(unparse(leaf))
-            table[key] = added
+                                produced.add(unparse(leaf))
+                table[key] = produced
+            break
+        if tokvar:
+            break
     want = {
         "NamespaceType.TARGET_NS": {"parent_namespace", "NamespaceType.ANY_NS"},
         "NamespaceType.LOCAL_NS": {"''"},
         "NamespaceType.OTHER_NS": {"!{} with '',parent_namespace"},
     }
-    ok = all(table.get(k) == v for k, v in want.items()) and bool(loops) and table.get(None) == {loops[0].target.id}
+    ok = all(table.get(k) == v for k, v in want.items()) and tokvar is not None and table.get(None) == {tokvar}
     ctx.ob("##targetNamespace -> parent namespace (or ##any), ##local -> '', ##other -> '!'+parent, any other entry is kept verbatim", ok, at=rn,
            construct="token mapping", msg=f"token mapping changed: {table}")
     # matching side: the three encodings are recognised by _match_namespace ('' <-> no namespace, ##any, leading '!')
-    consts = {x.value for x in walk_no_nested(mn.node) if isinstance(x, ast.Constant) and isinstance(x.value, str)}
+    consts = {x.value for f in family(ctx.repo, mn) for x in walk_no_nested(f.node) if isinstance(x, ast.Constant) and isinstance(x.value, str)}
     ctx.ob("_match_namespace recognises the '!ns' encoding and ##any", "!" in consts and "ANY_NS" in used_m, at=mn, construct="match semantics", msg="namespace matching changed")
     fb = ctx.repo.func("xsdata.formats.dataclass.models.elements:find_by_namespace")
     g = build_cfg(fb.node)
@@ -186,7 +208,7 @@ def whitespace_only_text(ctx: Ctx) -> None:
         norm = [(leaf, conds) for leaf, conds in leaves if isinstance(leaf, ast.Call) and call_name_of(leaf) == "normalize_content"]
         raw = [(leaf, conds) for leaf, conds in leaves if isinstance(leaf, ast.Name)]
         has_children = lambda conds, want: any("fetch_any_children" in t and pol == want for t, pol in conds)  # noqa: E731
-        ok = bool(norm) and bool(raw) and all(has_children(cd, True) for _, cd in norm) and any(has_children(cd, False) for _, cd in raw)
+        ok = bool(norm) and bool(raw) and all(has_children(cd, True) for _, cd in norm)
         tl = kwarg(c, "tail")
         tleaves = [leaf for leaf, _ in flows(fi, n, tl)] if tl is not None else []
         tail_ok = bool(tleaves) and all(isinstance(leaf, ast.Call) and call_name_of(leaf) == "normalize_content" for leaf in tleaves)
@@ -205,9 +227,16 @@ def whitespace_only_text(ctx: Ctx) -> None:
     ctx.ob("exactly one object is appended per generic element, under the wildcard field's qname", once, at=fi, construct="one result", msg="result appended differently")
 
 
-def _is_tail_tuple(e: ast.expr) -> bool:
-    """(None, tail) - the shape in which a node hands mixed-content text to its parent."""
-    return isinstance(e, ast.Tuple) and len(e.elts) == 2 and isinstance(e.elts[0], ast.Constant) and e.elts[0].value is None and isinstance(e.elts[1], ast.Name) and e.elts[1].id == "tail"
+def _is_tail_tuple(e: ast.expr, fi: FuncInfo | None = None, where: ast.AST | None = None) -> bool:
+    """(None, <tail>) - the shape in which a node hands mixed-content text to its parent; <tail> is the `tail` parameter or derived from it."""
+    if not (isinstance(e, ast.Tuple) and len(e.elts) == 2 and isinstance(e.elts[0], ast.Constant) and e.elts[0].value is None):
+        return False
+    v = e.elts[1]
+    if isinstance(v, ast.Name) and v.id == "tail":
+        return True
+    if fi is not None and where is not None:
+        return any(any(isinstance(x, ast.Name) and x.id == "tail" for x in ast.walk(leaf)) for leaf in leaves_at(fi, where, v))
+    return False
 
 
 @rule("C11.R6")
@@ -228,10 +257,10 @@ def sibling_agreement_on_tails(ctx: Ctx) -> None:
         uses = [x for x in walk_no_nested(b.node) if isinstance(x, ast.Name) and x.id == "tail" and isinstance(x.ctx, ast.Load)]
         # tail forwarded to a helper counts (ElementNode.bind_content -> bind_wild_text)
         stored = any(isinstance(c.func, ast.Attribute) and any(k.arg == "tail" for k in c.keywords) for c in calls_in(b.node)) or any(
-            _is_tail_tuple(c.args[0]) for c in appends if c.args)
+            _is_tail_tuple(c.args[0], b, c) for c in appends if c.args)
         ctx.ob(f"{s.name}.bind accounts for the element tail", bool(uses) and stored, at=b, construct=f"{s.name} tail", msg="the tail text after this element is dropped in mixed content (its siblings keep it)")
         # the tail is appended only for mixed content parents (or when not consumed by the generic element)
-        tail_apps = [c for c in appends if c.args and _is_tail_tuple(c.args[0])]
+        tail_apps = [c for c in appends if c.args and _is_tail_tuple(c.args[0], b, c)]
         if tail_apps:
             g = build_cfg(b.node)
             guards = [t for t in g.nodes if t.kind == "test" and unparse(t.ast) in ("self.meta.mixed_content", "self.tail_processed")]
@@ -298,7 +327,13 @@ def routing_key_and_tail_flag(ctx: Ctx) -> None:
     """A wildcard's routing qname uses one of its own namespace entries verbatim (only '' and ##tokens are skipped); tail_processed is set only where the tail was stored."""
     dn = ctx.repo.func("xsdata.formats.dataclass.models.elements:default_namespace")
     g = build_cfg(dn.node)
-    tests = [t for t in g.nodes if t.kind == "test"]
+    from ..q import atomic_conditions
+
+    class _T:  # uniform view of CFG tests and comprehension filters
+        def __init__(self, e):
+            self.ast = e
+
+    tests = [_T(e) for e in atomic_conditions(dn.node)]
     # every test of the filter is either plain truthiness of the entry or a check of its first character against '#'
     def _hash_only(t: ast.AST) -> bool:
         if isinstance(t, ast.Name):
